@@ -19,7 +19,7 @@ RULE = ("seven generated families against the real CategoricalClassification met
         "exercises its clause (adds a column / has a binding cut point / flips at least one cell / drops at least one row); "
         "distinct = distinct canonical cases")
 THEOREMS = ["C20_corr", "C20_corr_tan", "C20_corr_construction", "C20_dup", "C20_dup_info", "C20_dup_prefix_refuted", "C20_combo",
-            "C20_corr_info", "C20_info_exact", "C20_info_old_refuted", "C20_labels_mono", "C20_labels_count",
+            "C20_corr_info", "C20_info_exact", "C20_info_call", "C20_info_old_refuted", "C20_labels_mono", "C20_labels_count",
             "C20_labels_prop", "C20_labels_class_sizes", "C20_labels_cumulative", "C20_labels_ndarray_note", "C20_noise_cat", "C20_noise_cat_check_sound",
             "C20_noise_missing", "C20_noise_missing_check_sound", "C20_noise_cat_needs_standard_labels", "C20_downsample",
             "C20_downsample_check_sound"]
@@ -301,10 +301,154 @@ def gen_session(rng, big):
     return {"kind": "session", "X": X, "dtype": "int64", "ops": ops, "seed": rng.randint(0, 10 ** 6)}
 
 
+# ---- histories: several calls on ONE generator object, every call judged against its own clause ----------------
+
+def _hist_noise_step(rng, nr, src, cat):
+    st = {"kind": "noise_cat" if cat else "noise_missing", "X_from": src, "p": list(float(rng.choice([Fraction(1, 4), Fraction(5, 16), Fraction(1, 2), Fraction(3, 4)])).as_integer_ratio())}
+    if cat:
+        k = rng.randint(2, min(3, max(2, nr // 2)))
+        st["y"] = gen_class_labels(rng, nr, k, 2)[:nr]
+    else:
+        st["y"] = [0] * nr
+        st["marker"] = rng.choice([-1, -999])
+    return st
+
+
+def _literal(step, X, rng):
+    step = dict(step)
+    step.pop("X_from", None)
+    step["X"] = X
+    step["dtype"] = rng.choice(["int32", "int64"])
+    return step
+
+
+def gen_corr_history(rng, big):
+    """generate_correlated, then the data changes (noise / fresh matrix / permuted rows or columns / generate_data on the same
+    object), then generate_correlated again with the same feature index and row count on the same object"""
+    nr = rng.choice([6, 8, 10, 12, 20, 30]) if not big else rng.choice([6, 12, 40, 120])
+    nc = rng.randint(2, 4)
+    X0 = nonconstant_matrix(rng, nr, nc)
+    j = rng.randrange(nc)
+
+    def corr_step(src):
+        others = [c for c in range(nc) if c != j]
+        idx = [j] + rng.sample(others, rng.randint(0, min(2, len(others))))
+        rng.shuffle(idx)
+        spec = {"v": idx, "as": rng.choice(["list", "array"])} if len(idx) > 1 or rng.random() < 0.5 else {"v": j, "as": "scalar"}
+        r = rng.choice(R_GRID) if rng.random() < 0.7 else round(rng.uniform(-0.95, 0.95), 3)
+        st = {"kind": "corr", "idx": spec, "r": list(float(r).as_integer_ratio())}
+        if isinstance(src, list):
+            return _literal(st, src, rng)
+        st["X_from"] = src
+        return st
+
+    steps = [corr_step(X0)]
+    cur = {"step": 0, "what": "in"}          # where the current matrix lives
+    for _ in range(rng.randint(1, 3)):
+        mode = rng.choice(["noise_cat", "noise_cat", "noise_missing", "fresh", "rowperm", "colperm", "gen", "same"])
+        if mode in ("noise_cat", "noise_missing"):
+            steps.append(_hist_noise_step(rng, nr, cur, mode == "noise_cat"))
+            cur = {"step": len(steps) - 1, "what": "out"}
+            steps.append(corr_step(cur))
+        elif mode == "fresh":
+            steps.append(corr_step(nonconstant_matrix(rng, nr, nc)))
+            cur = {"step": len(steps) - 1, "what": "in"}
+        elif mode == "rowperm":
+            perm = list(range(nr))
+            rng.shuffle(perm)
+            steps.append(corr_step(dict(cur, rowperm=perm)))
+            cur = {"step": len(steps) - 1, "what": "in"}
+        elif mode == "colperm":
+            perm = list(range(nc))
+            rng.shuffle(perm)
+            steps.append(corr_step(dict(cur, colperm=perm)))
+            cur = {"step": len(steps) - 1, "what": "in"}
+        elif mode == "gen":
+            steps.append(corr_step({"gen": {"n_features": nc, "n_samples": nr, "cardinality": rng.randint(3, 9), "seed": rng.randint(0, 999)}}))
+            cur = {"step": len(steps) - 1, "what": "in"}
+        else:
+            steps.append(corr_step(cur))       # sweeping r on unchanged data
+    return {"kind": "history", "steps": steps, "seed": rng.randint(0, 10 ** 6)}
+
+
+def gen_history(rng, big):
+    """random calls of every kind on one object; inputs are fresh literals (often of a shape used before), generate_data()
+    results, or earlier inputs / integer outputs, possibly with permuted rows or columns"""
+    steps, shapes_in, shapes_out = [], [], []
+    base_nr, base_nc = rng.choice([6, 8, 10, 12, 16]), rng.randint(2, 4)
+    for _ in range(rng.randint(3, 7)):
+        # ---- choose the input
+        cands = [(i, "in", shapes_in[i]) for i in range(len(steps))] + [(i, "out", shapes_out[i]) for i in range(len(steps)) if shapes_out[i]]
+        mode = rng.random()
+        if not cands or mode < 0.35:
+            nr, nc = (base_nr, base_nc) if rng.random() < 0.7 else (rng.randint(5, 14), rng.randint(2, 4))
+            if rng.random() < 0.25:
+                src, lit = {"gen": {"n_features": nc, "n_samples": nr, "cardinality": rng.randint(4, 9), "seed": rng.randint(0, 999)}}, None
+            else:
+                src, lit = None, nonconstant_matrix(rng, nr, nc)
+        else:
+            i, what, (nr, nc) = rng.choice(cands)
+            src, lit = {"step": i, "what": what}, None
+            if rng.random() < 0.3:
+                perm = list(range(nr))
+                rng.shuffle(perm)
+                src["rowperm"] = perm
+            if rng.random() < 0.2:
+                perm = list(range(nc))
+                rng.shuffle(perm)
+                src["colperm"] = perm
+        # ---- choose the call
+        kind = rng.choice(["corr", "corr", "dup", "combo", "labels", "labels", "noise_cat", "noise_missing", "down"])
+        out_shape = None
+        if kind == "corr":
+            if nr < 5:
+                continue
+            r = rng.choice(R_GRID)
+            st = {"kind": "corr", "idx": gen_idx(rng, min(nc, base_nc), 1, 2, allow_neg=False), "r": list(float(r).as_integer_ratio())}
+        elif kind in ("dup", "combo"):
+            if kind == "dup":
+                op = {"op": "dup", "idx": gen_idx(rng, nc, 1, 3)}
+                add = len(idx_values(op["idx"]))
+            else:
+                op = {"op": "combo", "fn": rng.choice(["linear", "_xor", "_and", "_or"]), "idx": gen_idx(rng, nc, 2, 3, allow_scalar=False)}
+                add = 1
+            st = {"kind": "pipe", "ops": [op]}
+            out_shape = (nr, nc + add)
+        elif kind == "labels":
+            n = rng.choice([2, 3, 4])
+            st = {"kind": "labels", "n": n, "relation": rng.choice(["linear", "linear", "quarter_sum", "first_col", "nonlinear"]), "k": rng.choice([1, 2, 3]),
+                  "p": {"v": [rng.randint(1, 15), 16], "as": "scalar"} if n == 2 or rng.random() < 0.3 else {"v": dyadic_dist(rng, n, 16), "as": rng.choice(["list", "array"])}}
+        elif kind in ("noise_cat", "noise_missing"):
+            if kind == "noise_cat" and nr < 4:
+                continue
+            st = _hist_noise_step(rng, nr, None, kind == "noise_cat")
+            st.pop("X_from")
+            out_shape = (nr, nc)
+        else:
+            k = rng.randint(1, min(3, nr // 2)) if nr >= 2 else 1
+            y = gen_class_labels(rng, nr, k, 2 if nr >= 2 * k else 1)[:nr]
+            cnt = min(y.count(v) for v in set(y))
+            n = rng.randint(1, cnt)
+            st = {"kind": "down", "y": y, "n": n if rng.random() < 0.7 or True else None, "rs": rng.randint(0, 99), "reshuffle": rng.random() < 0.5}
+            out_shape = (n * len(set(y)), nc)
+        if lit is not None:
+            st = _literal(st, lit, rng)
+        else:
+            st["X_from"] = src
+        steps.append(st)
+        shapes_in.append((nr, nc))
+        shapes_out.append(out_shape)
+    if not steps:
+        return gen_history(rng, big)
+    return {"kind": "history", "steps": steps, "seed": rng.randint(0, 10 ** 6)}
+
+
 GENS = {"pipe": gen_pipe, "corr": gen_corr, "labels": gen_labels, "noise_cat": gen_noise_cat, "noise_missing": gen_noise_missing,
-        "down": gen_down, "session": gen_session}
-QUICK = {"pipe": 130, "corr": 70, "labels": 260, "noise_cat": 120, "noise_missing": 70, "down": 110, "session": 60}
-THOROUGH = {"pipe": 900, "corr": 500, "labels": 2000, "noise_cat": 900, "noise_missing": 500, "down": 800, "session": 400}
+        "down": gen_down, "session": gen_session, "history": gen_history, "corr_history": gen_corr_history}
+QUICK = {"pipe": 130, "corr": 70, "labels": 260, "noise_cat": 120, "noise_missing": 70, "down": 110, "session": 60, "history": 70,
+         "corr_history": 50}
+THOROUGH = {"pipe": 900, "corr": 500, "labels": 2000, "noise_cat": 900, "noise_missing": 500, "down": 800, "session": 400,
+            "history": 500, "corr_history": 400}
 
 
 def exhaustive_labels():
@@ -637,7 +781,8 @@ def judge(case, res, val, ctx, stats):
     if not res.get("ok"):
         bad("impl-raises", "the call terminates normally on an input inside the stated preconditions", res.get("error"))
         return out
-    if res.get("info0") != INFO0:
+    in_hist = bool(case.get("_in_history"))
+    if not in_hist and res.get("info0") != INFO0:
         bad("C20 self-description (initial)", "a fresh generator describes nothing", res.get("info0"), INFO0)
     if not res.get("x_untouched", True) or res.get("y_untouched") is False:
         bad("input untouched", "the input array is not modified by the call", {"x_untouched": res.get("x_untouched"), "y_untouched": res.get("y_untouched")})
@@ -645,6 +790,8 @@ def judge(case, res, val, ctx, stats):
         return out
 
     def check_info(model_state):
+        if in_hist:
+            return                            # histories compare the self-description after every call (judge_history)
         diff, a, b = info_diff(model_state[2], res["info"])
         if diff:
             bad("C20_info_exact / dataset_info correspondence", "self-description lists exactly what was added: " + ",".join(diff),
@@ -693,6 +840,9 @@ def judge(case, res, val, ctx, stats):
             col = [Y[i][nc + t] for i in range(nr)]
             if any(isinstance(c, str) for c in col):
                 bad("C20_corr correspondence", "correlated feature is finite", [str(c) for c in col][:5])
+                continue
+            if len({X[i][j] for i in range(nr)}) < 2:
+                stats["corr_constant_source_skipped"] = stats.get("corr_constant_source_skipped", 0) + 1
                 continue
             rho = pearson([float(c) for c in col], [float(X[i][j]) for i in range(nr)])
             dev = abs(rho - r) if rho == rho else float("inf")
@@ -807,23 +957,149 @@ def nontrivial(case, res):
     return True
 
 
+def case_rows(c):
+    if c["kind"] == "history":
+        return max([len(st["X"]) for st in c["steps"] if "X" in st] + [0])
+    return len(c["X"])
+
+
+def effective_step(step, sres):
+    """a call of a history as a self-contained single-call case: literal X = the input the driver reports"""
+    if not sres.get("ok"):
+        return None
+    X = int_cells(sres["input"]) if sres.get("input") and sres["input"][0] else None
+    if X is None:
+        return None
+    eff = {k: v for k, v in step.items() if k != "X_from"}
+    eff["X"] = X
+    eff["dtype"] = sres.get("input_dtype", "int64")
+    eff["_in_history"] = True
+    return eff
+
+
+def step_ops(eff, sres):
+    """the bookkeeping operations (with the shape they were applied to) of one call of a history"""
+    nr, nc = len(eff["X"]), len(eff["X"][0])
+    k = eff["kind"]
+    if k == "pipe":
+        out = []
+        for op in eff["ops"]:
+            out.append((nr, nc, op_coq(op)))
+            nc += len(idx_values(op["idx"])) if op["op"] == "dup" else 1
+        return out
+    if k == "corr":
+        return [(nr, nc, op_coq(dict(eff, op="corr")))]
+    if k == "labels":
+        return [(nr, nc, op_coq(dict(eff, op="labels")))]
+    if k in ("noise_cat", "noise_missing"):
+        return [(nr, nc, op_coq({"op": "noise", "type": "missing" if k == "noise_missing" else "categorical", "p": eff["p"]}))]
+    if k == "down":
+        if "raised" in sres:
+            return []
+        return [(nr, nc, op_coq(dict(eff, op="down")))]
+    raise ValueError(k)
+
+
 def evaluate(cases, stats):
     """-> list (per case) of lists of findings"""
     res = vlib.run_impl("impl_c20.py", {"cases": cases})["results"]
-    exprs, idx, ctxs = [], [], [None] * len(cases)
+    exprs, slots, ctxs, effs = [], [], {}, {}
     for i, (c, r) in enumerate(zip(cases, res)):
+        if c["kind"] == "history":
+            if not r.get("ok"):
+                continue
+            calls = []
+            marks = []                                  # (step index, number of bookkeeping ops so far)
+            for k, (st, sr) in enumerate(zip(c["steps"], r["steps"])):
+                eff = effective_step(st, sr)
+                effs[(i, k)] = eff
+                if eff is None:
+                    break
+                e, ctx = build_expr(eff, sr)
+                ctxs[(i, k)] = ctx
+                if e is not None:
+                    exprs.append(e)
+                    slots.append((i, k))
+                calls += step_ops(eff, sr)
+                marks.append((k, len(calls)))
+            ctxs[(i, "marks")] = marks
+            exprs.append("(map enc_info (history_trace info0 [%s]))" % "; ".join("(%s, %s, %s)" % (z(a), z(b), o) for a, b, o in calls))
+            slots.append((i, "trace"))
+            continue
         e, ctx = build_expr(c, r)
-        ctxs[i] = ctx
+        ctxs[(i, None)] = ctx
         if e is not None:
             exprs.append(e)
-            idx.append(i)
+            slots.append((i, None))
     vals = vlib.coq_eval("C20", HEADER, exprs, shard=40) if exprs else []
-    vmap = dict(zip(idx, vals))
-    return [judge(c, r, vmap.get(i), ctxs[i], stats) for i, (c, r) in enumerate(zip(cases, res))], res
+    vmap = dict(zip(slots, vals))
+    out = []
+    for i, (c, r) in enumerate(zip(cases, res)):
+        if c["kind"] == "history":
+            out.append(judge_history(i, c, r, vmap, ctxs, effs, stats))
+        else:
+            out.append(judge(c, r, vmap.get((i, None)), ctxs.get((i, None)), stats))
+    return out, res
+
+
+def judge_history(i, case, res, vmap, ctxs, effs, stats):
+    out = []
+    if not res.get("ok"):
+        return [("impl-raises", "the history runs", res.get("error"), None)]
+    if res.get("info0") != INFO0:
+        out.append(("C20 self-description (initial)", "a fresh generator describes nothing", res.get("info0"), INFO0))
+    trace = vmap.get((i, "trace")) or []
+    marks = dict(ctxs.get((i, "marks")) or [])
+    for k, (st, sr) in enumerate(zip(case["steps"], res["steps"])):
+        tag = "call #%d (%s) of a history on one generator object: " % (k, st["kind"])
+        if not sr.get("ok"):
+            out.append(("impl-raises", tag + "the call terminates normally on an input inside the stated preconditions", sr.get("error"), None))
+            break
+        eff = effs.get((i, k))
+        if eff is None:
+            stats["history_non_integer_input"] = stats.get("history_non_integer_input", 0) + 1
+            break
+        for f in judge(eff, sr, vmap.get((i, k)), ctxs.get((i, k)), stats):
+            out.append((f[0], tag + f[1], f[2], f[3]))
+        # the self-description after this call
+        npos = marks.get(k)
+        if npos is not None and 0 < npos <= len(trace):
+            diff, a, b = info_diff(trace[npos - 1], sr["info"])
+            if diff:
+                out.append(("C20_info_call / dataset_info correspondence", tag + "self-description lists exactly what this call added: " + ",".join(diff),
+                            {kk: b.get(kk) for kk in diff if kk in b}, {kk: a.get(kk) for kk in diff if kk in a}))
+        elif npos == 0 and sr["info"] != dict(INFO0, keys=sr["info"]["keys"]):
+            pass
+    return out
+
+
+def drop_step(case, t):
+    """the history without call t (None when a later call reads its matrices)"""
+    steps = []
+    for k, st in enumerate(case["steps"]):
+        if k == t:
+            continue
+        src = st.get("X_from")
+        if src is not None and "step" in src:
+            if src["step"] == t:
+                return None
+            if src["step"] > t:
+                st = dict(st, X_from=dict(src, step=src["step"] - 1))
+        steps.append(st)
+    return dict(case, steps=steps)
 
 
 def shrink_candidates(case):
     out = []
+    if case["kind"] == "history":
+        n = len(case["steps"])
+        for m in range(1, n):
+            out.append(dict(case, steps=case["steps"][:m]))
+        for t in range(n):
+            c = drop_step(case, t)
+            if c is not None and c["steps"]:
+                out.append(c)
+        return out[:40]
     X = case["X"]
     n = len(X)
     if case["kind"] in ("pipe", "session") and len(case["ops"]) > 1:
@@ -865,10 +1141,10 @@ def shrink(case, first, stats):
             fs, _ = evaluate(cands, {})
         except Exception:
             break
-        hits = [(c, f) for c, f in zip(cands, fs) if f and f[0][0] == cur_f[0][0]]
+        hits = [(c, f) for c, f in zip(cands, fs) if f and any(x[0] == cur_f[0][0] for x in f)]
         if not hits:
             break
-        cur, cur_f = min(hits, key=lambda cf: (len(cf[0]["X"]), len(json.dumps(cf[0]))))
+        cur, cur_f = min(hits, key=lambda cf: (len(cf[0].get("steps", [])), case_rows(cf[0]), len(json.dumps(cf[0]))))
     return cur, cur_f
 
 
